@@ -77,11 +77,17 @@ func (tr *Tr) havocLog(st *State) {
 // havocState forgets the whole heap, ghost maps and log (unknown call).
 func (tr *Tr) havocState(st *State, why string) {
 	f := tr.f
+	oldHeap := map[string]*Term{}
+	for _, k := range heapKeys {
+		oldHeap[k] = tr.get(st, heapComp(k))
+	}
+	allocBefore := tr.get(st, "alloc")
+	defer func() { tr.keepImmutableFields(st, oldHeap, allocBefore) }()
 	for _, k := range heapKeys {
 		tr.set(st, heapComp(k), f.Fresh("Hhavoc"+k, tr.compSort(heapComp(k))))
 	}
 	for name := range st.C {
-		if strings.HasPrefix(name, "M|") || name == "locks" {
+		if strings.HasPrefix(name, "M.") || name == "locks" {
 			tr.set(st, name, f.Fresh("Mhavoc", tr.compSort(name)))
 		}
 	}
@@ -92,6 +98,28 @@ func (tr *Tr) havocState(st *State, why string) {
 func (tr *Tr) havocAll(fr *Frame, why string) {
 	tr.note("havoc: " + why)
 	tr.havocState(fr.st, why)
+}
+
+// havocAllNoWrite: like havocAll for a callee from which no device write is reachable in the call graph
+// (Program.mayEffect(fn, "devwrite") is false): everything is forgotten except that the events it appended are not WRITEs.
+func (tr *Tr) havocAllNoWrite(fr *Frame, why string) {
+	oldLen := tr.get(fr.st, "ev.len")
+	tr.note("havoc (no device write reachable from the callee): " + why)
+	tr.havocState(fr.st, why)
+	tr.assumeNoWriteSince(fr.st, oldLen, "events appended by a callee that cannot reach WriteAt are not WRITE events")
+}
+
+func (tr *Tr) repoMethodMayWrite(name string) bool {
+	if name == "WriteAt" || name == "Truncate" {
+		return true
+	}
+	tr.P.mayEffect(tr.top, "devwrite") // builds byMethod
+	for _, m := range tr.P.byMethod[name] {
+		if tr.P.mayEffect(m, "devwrite") {
+			return true
+		}
+	}
+	return false
 }
 
 func (tr *Tr) havocRegionKeys(st *State, reg *Term, keys []string) {
@@ -225,7 +253,11 @@ func (tr *Tr) call(fr *Frame, site ssa.Instruction, c *ssa.CallCommon, res *ssa.
 	}
 	sf := c.StaticCallee()
 	if sf == nil {
-		tr.havocAll(fr, "call through a function value at "+describe(tr.P.prog, site.Pos()))
+		if !tr.callMayWrite(fr, c) {
+			tr.havocAllNoWrite(fr, "call through a function value at "+describe(tr.P.prog, site.Pos()))
+		} else {
+			tr.havocAll(fr, "call through a function value at "+describe(tr.P.prog, site.Pos()))
+		}
 		tr.setResult(fr, res, fresh("dyn"))
 		return
 	}
@@ -243,6 +275,11 @@ func (tr *Tr) call(fr *Frame, site ssa.Instruction, c *ssa.CallCommon, res *ssa.
 		return
 	}
 	if tr.P.isRepoFunc(sf) {
+		if !tr.P.mayEffect(sf, "devwrite") {
+			tr.havocAllNoWrite(fr, "repo callee without contract, too large to inline: "+funcDisplay(sf))
+			tr.setResult(fr, res, fresh("r_"+sf.Name()))
+			return
+		}
 		tr.havocAll(fr, "repo callee without contract, too large to inline: "+funcDisplay(sf))
 		tr.setResult(fr, res, fresh("r_"+sf.Name()))
 		return
@@ -305,6 +342,11 @@ func (tr *Tr) foreignCall(fr *Frame, c *ssa.CallCommon, sf *ssa.Function, args [
 		name = sf.String()
 	}
 	pure := sf != nil && sf.Pkg != nil && purePkg(sf.Pkg.Pkg.Path())
+	if sf != nil && effectSource(sf, "devwrite") {
+		// handed a device writer: it may write anywhere on it
+		tr.havocLog(fr.st)
+		tr.note("foreign call given a device writer (event log havocked): " + name)
+	}
 	if !pure {
 		for i, a := range c.Args {
 			tr.havocReachable(fr.st, a.Type(), args[i])
@@ -369,6 +411,7 @@ func (tr *Tr) builtin(fr *Frame, site ssa.Instruction, c *ssa.CallCommon, b *ssa
 		return tr.appendOp(fr, site, c)
 	case "copy":
 		d, s := tr.val(c.Args[0]), tr.val(c.Args[1])
+		tr.sliceTypeFacts(elemType(c.Args[0].Type()), d[0])
 		var sl, sreg, soff *Term
 		var srcInner map[string]*Term
 		keys := keysOfType(elemType(c.Args[0].Type()))
@@ -435,6 +478,7 @@ func (tr *Tr) appendOp(fr *Frame, site ssa.Instruction, c *ssa.CallCommon) Val {
 	f := tr.f
 	s := tr.val(c.Args[0])
 	et := elemType(c.Args[0].Type())
+	tr.sliceTypeFacts(et, s[0])
 	keys := keysOfType(et)
 	m := int64(nleaves(et))
 	if m == 0 {
@@ -639,6 +683,10 @@ func (tr *Tr) invoke(fr *Frame, site ssa.Instruction, c *ssa.CallCommon, rt type
 		tr.bumpAlloc(fr.st)
 		tr.havocLog(fr.st)
 		tr.note("foreign interface method (receiver and arguments havocked): " + name)
+		return tr.freshVal(rt, "iv_"+name)
+	}
+	if !tr.repoMethodMayWrite(name) {
+		tr.havocAllNoWrite(fr, "repo interface method without contract: "+types.TypeString(c.Value.Type(), nil)+"."+name)
 		return tr.freshVal(rt, "iv_"+name)
 	}
 	tr.havocAll(fr, "repo interface method without contract: "+types.TypeString(c.Value.Type(), nil)+"."+name)
@@ -1020,32 +1068,58 @@ func (tr *Tr) callIfaceContract(fr *Frame, site ssa.Instruction, c *ssa.CallComm
 		}
 		tr.assume(f.Implies(reach, t), "interface contract "+ct.FnName+": "+e.Src)
 	}
-	tr.trust("interface contract " + ct.FnName + " (assumed for implementations outside the repository; proved for in-repo implementations listed in the contract file)")
+	tr.trust("interface contract " + ct.FnName + " (assumed at the call; " + tr.P.ifaceImplStatus(c, ct) + ")")
 	fr.st = post
 	return res
 }
 
 // at-call assertions of the enclosing contract
 func (tr *Tr) atCallAsserts(fr *Frame, site ssa.Instruction, sf *ssa.Function, c *ssa.CallCommon, args []Val) {
-	tr.atCallAssertsName(fr, site, sf.Name(), c, args)
+	qn := ""
+	if sf.Pkg != nil && sf.Signature.Recv() == nil && sf.Parent() == nil {
+		qn = sf.Pkg.Pkg.Name() + "." + sf.Name()
+	}
+	tr.atCallAssertsQ(fr, site, sf.Name(), qn, c, args)
+}
+
+func (tr *Tr) atCallAssertsName(fr *Frame, site ssa.Instruction, nm string, c *ssa.CallCommon, args []Val) {
+	tr.atCallAssertsQ(fr, site, nm, "", c, args)
 }
 
 // atCallAssertsName: call-site assertions addressed by callee (or interface method) name and ordinal.
-func (tr *Tr) atCallAssertsName(fr *Frame, site ssa.Instruction, nm string, c *ssa.CallCommon, args []Val) {
+// A callee written pkg.Func (package name, no receiver) is matched exactly and counted on its own, so that e.g.
+// file.New and errors.New do not share ordinals.
+func (tr *Tr) atCallAssertsQ(fr *Frame, site ssa.Instruction, nm, qn string, c *ssa.CallCommon, args []Val) {
 	if fr.contract == nil || len(fr.contract.AtCalls) == 0 {
 		return
 	}
 	fr.callOrd["at:"+nm]++
-	ord := fr.callOrd["at:"+nm] - 1
+	ordShort := fr.callOrd["at:"+nm] - 1
+	ordQ := -1
+	if qn != "" {
+		fr.callOrd["atq:"+qn]++
+		ordQ = fr.callOrd["atq:"+qn] - 1
+	}
+	ord := ordShort
 	listed := false
 	matched := false
 	for _, ac := range fr.contract.AtCalls {
 		short := ac.Callee
-		if i := strings.LastIndex(short, "."); i >= 0 {
-			short = short[i+1:]
-		}
-		if short != nm {
-			continue
+		i := strings.LastIndex(short, ".")
+		if i > 0 && !strings.HasPrefix(short, "(") {
+			// package-qualified
+			if short != qn {
+				continue
+			}
+			ord = ordQ
+		} else {
+			if i >= 0 {
+				short = short[i+1:]
+			}
+			if short != nm {
+				continue
+			}
+			ord = ordShort
 		}
 		listed = true
 		if ac.Ordinal != ord {
@@ -1075,6 +1149,41 @@ func (tr *Tr) atCallAssertsName(fr *Frame, site ssa.Instruction, nm string, c *s
 		// the contract enumerates the call sites of this callee: an additional one has no specification
 		tr.obligeNamed("assert@"+nm, fmt.Sprintf("%d.unlisted", ord), site.Pos(), tr.f.False(), "call site #"+fmt.Sprint(ord)+" of "+nm+" is not covered by the contract's call-site assertions")
 	}
+}
+
+// callMayWrite: can this call append a WRITE event (reach WriteAt / Truncate on a device writer)? Syntactic, over-approximate.
+func (tr *Tr) callMayWrite(fr *Frame, c *ssa.CallCommon) bool {
+	if _, ok := c.Value.(*ssa.Builtin); ok {
+		return false
+	}
+	if c.IsInvoke() {
+		name := c.Method.Name()
+		if name == "WriteAt" || name == "Truncate" {
+			return true
+		}
+		if tr.repoInterface(c.Value.Type()) {
+			return tr.repoMethodMayWrite(name)
+		}
+		return false
+	}
+	if fr != nil {
+		if ci, ok := fr.closures[c.Value]; ok {
+			return tr.P.mayEffect(ci.fn, "devwrite")
+		}
+	}
+	sf := c.StaticCallee()
+	if sf == nil {
+		return tr.P.dynMayEffect(c.Value.Type(), "devwrite")
+	}
+	return tr.P.mayEffect(sf, "devwrite")
+}
+
+// assumeNoWriteSince: the events appended since the log had length oldLen are not WRITE events.
+func (tr *Tr) assumeNoWriteSince(st *State, oldLen *Term, why string) {
+	f := tr.f
+	k := f.BoundVar("k", GhostIdxSort())
+	kind := tr.get(st, "ev.kind")
+	tr.assume(f.Forall([]*Term{k}, f.Implies(f.And(f.ILe(oldLen, k), f.ILt(k, tr.get(st, "ev.len"))), f.Neq(f.Select(kind, k), f.BVi(64, evWrite))), []*Term{f.Select(kind, k)}), why)
 }
 
 // ---------- static effects of a call, for loop havoc
